@@ -183,9 +183,10 @@ func (x *fnv) oblige(s *State, kind, label string, goal *Term, pos token.Pos, cl
 		name += "." + label
 	}
 	o := &Obligation{Name: name, Func: x.qual(), Kind: kind, Label: label, Props: x.props(cl), Goal: goal, Pos: x.posStr(pos), ctx: x.c}
-	if x.fc != nil && cl != nil && len(cl.Props) > 0 && (kind == "assert" || kind == "pre" || strings.HasPrefix(kind, "inv.")) {
-		// assertions, invariants and callee preconditions are assumed by everything that follows them in the function
-		// (assert-then-assume): every property the function serves depends on them, whatever the clause is tagged with
+	if x.fc != nil && cl != nil && len(cl.Props) > 0 {
+		// a clause tag adds a property to those of the function, it never removes one: assertions, invariants and callee
+		// preconditions are assumed by everything that follows them (assert-then-assume), and a postcondition of a function
+		// that serves several properties is part of what each of them relies on
 		ps := append([]string(nil), o.Props...)
 		for _, p := range x.fc.Props {
 			has := false
